@@ -14,6 +14,15 @@ Section Body.
   Variables isfin ispos : A -> bool.
   Variable shape : list Z.
   Variable a : idx -> A.
+  Variable unb : garr A -> garr A.      (* glue.utils.unbroadcast on the data array *)
+  Variable st : Z.                      (* the statistic R is the reducer of: minimum 0, maximum 1, mean 2, median 3, sum 4, percentile 5 *)
+
+  (* the guard of the translated code for the unbroadcast shortcut, and what the shortcut needs: for the statistics it is applied to,
+     the kernel gives the same overall result on the unbroadcast array (R is invariant under the uniform repetition of its sample) *)
+  Definition unb_guard : bool := negb (existsb (Z.eqb st) [4; 5]).
+  Definition unb_sound : Prop :=
+    unb_guard = true -> forall (d : garr A) fin pos,
+      g_compute_statistic A res R isfin ispos st (unb d) None AxNone fin pos tt = g_compute_statistic A res R isfin ispos st d None AxNone fin pos tt.
 
   Definition res_eq (r r' : gres res) : Prop := fst r = fst r' /\ forall o, in_box (fst r) o -> snd r o = snd r' o.
 
@@ -22,7 +31,7 @@ Section Body.
     && negb (g_is_slice_state s).
   Definition shortcut (s : selection) (ax : pyaxis) (v : pyview) : bool := g_is_slice_state s && view_is_none v && axis_is_none ax.
 
-  Local Notation GSTEP := (gen_step A res R nan zero isfin ispos shape a).
+  Local Notation GSTEP := (gen_step A res R nan zero isfin ispos shape a unb).
 
   Lemma if_same : forall (X : Type) (b : bool) (x : X), (if b then x else x) = x.
   Proof. intros X b x. destruct b; reflexivity. Qed.
@@ -36,13 +45,16 @@ Section Body.
 
   (* no selection *)
   Lemma body_none : forall rec fuel ax fin pos o ncm,
+    unb_sound ->
     chunk_cond SelNone ax (pv o) ncm = false ->
-    GSTEP rec fuel SelNone ax fin pos (pv o) ncm =
+    GSTEP rec fuel st SelNone ax fin pos (pv o) ncm =
     Ok (stat_view_e A res R nan shape a (filt_of A isfin ispos fin pos) None (entries o)
           (red_of_axes (zlen (sel_shape (view_sel shape (entries o)))) (axes_of ax))).
   Proof.
-    intros rec fuel ax fin pos o ncm Hch. unfold gen_step, compute_statistic_step. unfold chunk_cond in Hch.
-    destruct o as [l|]; cbn [pv] in Hch; gcbv; gcbv_in Hch; try rewrite Hch; rewrite ?if_same; reflexivity.
+    intros rec fuel ax fin pos o ncm Hunb Hch. unfold gen_step, compute_statistic_step. unfold chunk_cond in Hch.
+    destruct o as [l|]; destruct ax as [|i|L]; cbn [pv] in Hch; gcbv; gcbv_in Hch; try rewrite Hch; gax; rewrite ?if_same; try reflexivity.
+    all: destruct (existsb (Z.eqb st) [4; 5]) eqn:E; rewrite ?if_same; [reflexivity|];
+      rewrite Hunb by (unfold unb_guard; rewrite E; reflexivity); reflexivity.
   Qed.
 
   Lemma existsb_filter : forall (X : Type) (f : X -> bool) (l : list X),
@@ -133,7 +145,7 @@ Section Body.
 
     (* the kernel call of the translated code on the cropped data and mask *)
     Lemma kernel_crop : forall ax,
-      g_compute_statistic A res R isfin ispos tt (g_get_data A shape a tt (PVTuple nv))
+      g_compute_statistic A res R isfin ispos st (g_get_data A shape a tt (PVTuple nv))
         (Some (g_mask_getitem (vsh, mv) (map slice_of_pair sub))) ax fin pos tt
       = (out_shape csh (red_of_axes (zlen vsh) (axes_of ax)),
          reduce A res R csh data' (fun j => mv (zadd j (map fst sub)) && filt (data' j)) (red_of_axes (zlen vsh) (axes_of ax))).
@@ -185,7 +197,7 @@ Section Body.
     g_truthy s = true ->
     chunk_cond s ax (pv o) ncm = false ->
     shortcut s ax (pv o) = false ->
-    exists r, GSTEP rec fuel s ax fin pos (pv o) ncm = Ok r /\
+    exists r, GSTEP rec fuel st s ax fin pos (pv o) ncm = Ok r /\
       res_eq r (stat_view_e A res R nan shape a (filt_of A isfin ispos fin pos) (Some (g_mask_fun shape s)) (entries o)
                  (red_of_axes (zlen (sel_shape (view_sel shape (entries o)))) (axes_of ax))).
   Proof.
@@ -232,15 +244,15 @@ Section Body.
                        else (vsh, mv, None) in
                      let '(data, mask0) :=
                        if oz_truthy None &&
-                          (zprod (fst (if axis_is_none ax && is_none (Some mask)
-                                       then g_get_data A shape a tt view else g_get_data A shape a tt view)) >? oz_get None)
-                       then (if axis_is_none ax && is_none (Some mask)
-                             then g_get_data A shape a tt view else g_get_data A shape a tt view, Some mask)
-                       else (if axis_is_none ax && is_none (Some mask)
-                             then g_get_data A shape a tt view else g_get_data A shape a tt view, Some mask) in
+                          (zprod (fst (if axis_is_none ax && is_none (Some mask) && negb (existsb (Z.eqb st) [4; 5])
+                                       then unb (g_get_data A shape a tt view) else g_get_data A shape a tt view)) >? oz_get None)
+                       then (if axis_is_none ax && is_none (Some mask) && negb (existsb (Z.eqb st) [4; 5])
+                             then unb (g_get_data A shape a tt view) else g_get_data A shape a tt view, Some mask)
+                       else (if axis_is_none ax && is_none (Some mask) && negb (existsb (Z.eqb st) [4; 5])
+                             then unb (g_get_data A shape a tt view) else g_get_data A shape a tt view, Some mask) in
                      if is_none subarray_slices || axis_is_none ax
-                        || (zlen (fst (g_compute_statistic A res R isfin ispos tt data mask0 ax fin pos tt)) =? 0)
-                     then Ok (g_compute_statistic A res R isfin ispos tt data mask0 ax fin pos tt)
+                        || (zlen (fst (g_compute_statistic A res R isfin ispos st data mask0 ax fin pos tt)) =? 0)
+                     then Ok (g_compute_statistic A res R isfin ispos st data mask0 ax fin pos tt)
                      else Ok (g_setitem res
                                 (if view_is_none chunk_view
                                  then map (fun idim => znth shape idim)
@@ -253,7 +265,7 @@ Section Body.
                                 (map (fun idim => snth (unopt subarray_slices) idim)
                                      (filter (fun idim => negb (axis_mem idim (if negb (axis_is_tuple ax) then AxTuple [axis_int ax] else ax)))
                                              (py_range 0 (zlen (unopt subarray_slices)) 1)))
-                                (g_compute_statistic A res R isfin ispos tt data mask0 ax fin pos tt)))) = Ok r /\
+                                (g_compute_statistic A res R isfin ispos st data mask0 ax fin pos tt)))) = Ok r /\
                    res_eq r (stat_view_e A res R nan shape a (filt_of A isfin ispos fin pos) (Some (g_mask_fun shape s)) (entries o)
                                (red_of_axes (zlen vsh) (axes_of ax)))).
       { intros chunk_view nv Env Hfs.
@@ -281,7 +293,7 @@ Section Body.
         destruct (new_view_e shape l sub) as [nv|] eqn:Env.
         * rewrite HL. apply (Tail (PVTuple l) nv Env). intros L.
           cbn [view_is_none]. rewrite Hmask. cbn [fst]. symmetry. exact (out_shape_filter (fun i0 => existsb (Z.eqb i0) L) vsh).
-        * destruct HL as [mi' HL]. rewrite HL. cbv beta iota. gcbv. rewrite ?if_same.
+        * destruct HL as [mi' HL]. rewrite HL. cbv beta iota. gcbv. rewrite ?if_same. cbv beta iota. rewrite ?if_same.
           eexists. split; [reflexivity|].
           assert (Hm : forall red, stat_view_e A res R nan shape a (filt_of A isfin ispos fin pos) (Some (g_mask_fun shape s)) l red
                            = (out_shape vsh red, reduce A res R vsh (fun j => a (to_under_e (view_sel shape l) j))
